@@ -10,7 +10,7 @@ import itertools
 import time
 import z3
 
-from .sym import UF, _mk_solver
+from .sym import UF, _mk_solver, zcheck
 
 SIDE_TIMEOUT_MS = 1500
 MAX_ATOMS = 9
@@ -44,7 +44,7 @@ def _valid(pc, claim):
     s = _mk_solver(SIDE_TIMEOUT_MS)
     s.add(*pc)
     s.add(z3.Not(claim))
-    return s.check() == z3.unsat
+    return zcheck(s, ms=SIDE_TIMEOUT_MS) == z3.unsat
 
 
 def instantiate(fmls, timeout_ms=None):
